@@ -99,6 +99,7 @@ func main() {
 		}
 		w.close()
 	}
+	evs = append(evs, trace.Ev{"e": "End", "count": len(evs)})
 	must(trace.WriteNDJSON(filepath.Join(*out, "trace.ndjson"), evs))
 	must(trace.WriteNDJSON(filepath.Join(*out, "blobs.ndjson"), blobs))
 	summary["perProfile"] = perProf
